@@ -1,6 +1,6 @@
 (* C02 - notify delivers every payload intact.  The slot formula is GENERATED from its four copies in sc_notify.c. *)
 From Coq Require Import ZArith List Bool Permutation.
-From ScV Require Import Base.CInt Gen.NotifyC01 C02.SlotProofs C02.PayloadModel C01.MergeModel C01.MergeProofs C01.MergeCorr Gen.Consts MPI.Prog C01.NotifyProgs C01.NotifyProgProofs.
+From ScV Require Import Base.CInt Gen.NotifyC01 C02.SlotProofs C02.PayloadModel C01.MergeModel C01.MergeProofs C01.MergeCorr Gen.Consts MPI.Prog C01.NotifyProgs C01.NotifyProgProofs C01.NaryArith C01.NaryDelivery C01.RecordOps C01.BinaryRound C01.NaryRound.
 Import ListNotations.
 Local Open Scope Z_scope.
 
@@ -85,3 +85,63 @@ Theorem C02_census_program : forall (coll : Z -> list payload -> Z -> payload) k
   = (census_actions kind P R pay me (length order), Some (result final (map (fun s => pay s me) final))).
 Proof. exact census_round. Qed.
 Print Assumptions C02_census_program.
+
+(* ---- binary algorithm with one payload item per receiver (sc_notify_payload_wrapper after sc_notify) ----------------
+   Round semantics of the co-simulated program binary_core: after the levels (C01_binary_round_semantics) every rank
+   sends pay me r to every listed r and receives, by named receives, pay s me from every rank s that listed it; the
+   result carries pay s me at the position of s, for every arrival order at the levels. *)
+Theorem C02_binary_round_semantics : forall G (R : Z -> list Z) (pay : Z -> Z -> payload), 0 < G <= BIG ->
+  (forall f, 0 <= f < G -> ssorted (fun x => x) (R f) /\ forall t, In t (R f) -> 0 <= t < G) ->
+  exists n : nat, binary_pow2length G = 2 ^ Z.of_nat n /\
+  forall (first2 : nat -> Z -> bool) me, 0 <= me < G ->
+    run (levels_replies G R first2 0 n me ++ repeat [] (length (R me)) ++ map (fun s => s :: pay s me) (transpose G R me))
+        (binary_core G me (R me) (Some (map (pay me) (R me))) (fun s g => Ret (result s g)))
+    = (levels_acts G R first2 0 n me ++ map (fun r => Send r c_SC_TAG_NOTIFY_WRAPPER (pay me r)) (R me)
+                                     ++ map (fun s => Recv s c_SC_TAG_NOTIFY_WRAPPER) (transpose G R me),
+       Some (result (transpose G R me) (map (fun s => pay s me) (transpose G R me)))).
+Proof. exact binary_round_semantics_payload_all. Qed.
+Print Assumptions C02_binary_round_semantics.
+
+(* ---- n-ary recursion with one payload item per receiver inside the records -------------------------------------------
+   an item of sz bytes (each 0..255) packed little-endian into m int slots (the code's memcpy into &pint[3]) and
+   unpacked again (reset_output's memcpy) is unchanged, whenever sz <= 4 m (guaranteed by C02_slots_nary) *)
+Theorem C02_unpack_pack_ints : forall (m : nat) sz bs, Forall isbyte bs -> Z.of_nat (length bs) = sz -> sz <= 4 * Z.of_nat m ->
+  unpack_ints sz (pack_ints m bs) = bs.
+Proof. exact unpack_pack_ints. Qed.
+Print Assumptions C02_unpack_pack_ints.
+
+(* round semantics of the program nary_run with payload: for every receiver family, payload family and all arrival
+   orders at all levels every rank ends with the ascending senders and, at the position of sender s, exactly pay s me *)
+Theorem C02_nary_round_semantics : forall G (R : Z -> list Z), 0 < G <= BIG ->
+  (forall f, 0 <= f < G -> ssorted (fun x => x) (R f) /\ forall t, In t (R f) -> 0 <= t < G) ->
+  forall depth ntop nint nbot (ls : list (Z * Z)), G <= prodl (map snd ls) -> prodl (map snd ls) <= BIG ->
+  forall orders : Z -> Z -> list Z,
+  (forall me, 0 <= me < G -> levels_ok G depth ntop nint nbot me (orders me) 1 ls) ->
+  forall (pay : Z -> Z -> payload) sz (m : nat),
+  (forall f t, Forall isbyte (pay f t) /\ Z.of_nat (length (pay f t)) = sz) -> sz <= 4 * Z.of_nat m ->
+  forall me, 0 <= me < G ->
+  let payf := fun f t => pack_ints m (pay f t) in
+  run (all_replies G R payf me (orders me) 1 ls h0)
+      (nary_run G me (Z.of_nat m) depth ntop nint nbot (mk_lv me 1 ls) (init_input me (R me) (Some (map (pay me) (R me))) m)
+                (fun arr => let '(s, p) := reset_output arr m sz true in Ret (result s p)))
+  = (all_acts G R payf me 1 ls h0, Some (result (transpose G R me) (map (fun s => pay s me) (transpose G R me)))).
+Proof. exact nary_round_semantics_payload. Qed.
+Print Assumptions C02_nary_round_semantics.
+
+(* the entry point nary_core with payload, slot count from the GENERATED npay_nary.  PARTIAL as C01_nary_core_..._partial *)
+Theorem C02_nary_core_round_semantics_partial : forall G (R : Z -> list Z) (pay : Z -> Z -> payload) ntop nint nbot depth prod
+    (ls : list (Z * Z)) (orders : Z -> Z -> list Z) sz,
+  0 < G <= BIG -> G <> 1 -> 0 < sz < 2 ^ 31 ->
+  (forall f, 0 <= f < G -> ssorted (fun x => x) (R f) /\ forall t, In t (R f) -> 0 <= t < G) ->
+  (forall f t, Forall isbyte (pay f t) /\ Z.of_nat (length (pay f t)) = sz) ->
+  nary_depth 64 G nbot ntop nint = Some (depth, prod) ->
+  (forall me, 0 <= me < G -> rev (nary_descent 64 me 0 depth ntop nint nbot 0 prod) = mk_lv me 1 ls) ->
+  G <= prodl (map snd ls) -> prodl (map snd ls) <= BIG ->
+  (forall me, 0 <= me < G -> levels_ok G depth ntop nint nbot me (orders me) 1 ls) ->
+  forall me, 0 <= me < G ->
+  let payf := fun f t => pack_ints (Z.to_nat (npay_nary 1 sz)) (pay f t) in
+  run (all_replies G R payf me (orders me) 1 ls h0)
+      (nary_core G me ntop nint nbot (R me) (Some (map (pay me) (R me))) sz (fun s g => Ret (result s g)))
+  = (all_acts G R payf me 1 ls h0, Some (result (transpose G R me) (map (fun s => pay s me) (transpose G R me)))).
+Proof. exact nary_core_round_semantics_payload. Qed.
+Print Assumptions C02_nary_core_round_semantics_partial.
